@@ -284,6 +284,13 @@ func newSecureChannel(endpoint string, c *uacp.Conn, cfg *Config, kind channelKi
 	return s, nil
 }
 
+// Disconnected returns a channel which is closed when the secure channel
+// has stopped reading from its connection, i.e. when the connection was
+// lost or the secure channel was closed.
+func (s *SecureChannel) Disconnected() <-chan struct{} {
+	return s.disconnected
+}
+
 func (s *SecureChannel) RemoteAddr() net.Addr {
 	return s.c.TCPConn.RemoteAddr()
 }
